@@ -13,12 +13,12 @@ import (
 // exported API anchors; nothing is matched by local identifier.
 
 type listInfo struct {
-	Cell       *ssa.Alloc  // the variable's cell, if it has one
-	Var        interface{} // identity of the list variable (listvar.go)
-	Literal    string      // object-type literal under which the list is appended
+	Cell       *ssa.Alloc      // the variable's cell, if it has one
+	Var        interface{}     // identity of the list variable (listvar.go)
+	Literal    string          // object-type literal under which the list is appended
 	Append     ssa.Instruction // the store of the append result (cell) or the append call (register)
-	FeedLoops  []*scanLoop // loops over the list that call RequestObject
-	ReadLoops  []*scanLoop // loops over the list that call BatchObjectIter.Next
+	FeedLoops  []*scanLoop     // loops over the list that call RequestObject
+	ReadLoops  []*scanLoop     // loops over the list that call BatchObjectIter.Next
 	OtherLoops []*scanLoop
 }
 
@@ -254,7 +254,7 @@ func (c *Ctx) scanModel() *scanInfo {
 		}
 		allInstrs(f, func(in ssa.Instruction) {
 			if ci, ok := in.(ssa.CallInstruction); ok {
-				if cal := ci.Common().StaticCallee(); cal != nil && cal.Parent() == nil && !knownFuncs[cal.String()] {
+				if cal := ci.Common().StaticCallee(); cal != nil && cal.Parent() == nil && !knownFuncs[refQ(cal)] {
 					addFn(cal, depth+1)
 				}
 			}
@@ -355,7 +355,7 @@ func (c *Ctx) fieldPath(v ssa.Value) (ssa.Value, []string) {
 			if !ok {
 				break
 			}
-			path = append([]string{fieldOfAddr(fa).Var.Name()}, path...)
+			path = append([]string{vname(fieldOfAddr(fa).Var)}, path...)
 			cur = fa.X
 		}
 		if len(path) == 0 {
@@ -369,7 +369,7 @@ func (c *Ctx) fieldPath(v ssa.Value) (ssa.Value, []string) {
 			if !ok {
 				break
 			}
-			path = append([]string{fieldOfVal(f).Var.Name()}, path...)
+			path = append([]string{vname(fieldOfVal(f).Var)}, path...)
 			cur = f.X
 		}
 		return cur, path
